@@ -29,6 +29,14 @@ def r2b_columns_adopted(ctx):
     r4_fit_iff_no_hash(ctx)
 
 
+def r5_bounds_trigger_refit(ctx):
+    from .. import fitrules
+    fitrules.setitem_invalidation(
+        ctx, why=" (new bounds/expressions of an initial parameter do not "
+        "lead to a re-fit: the reported parameters violate the stored "
+        "bounds)")
+
+
 RULES = [
     ("C04-R1", "NaN unless written; success flag matches the branch",
      fitclauses.clause_nan_unless_written),
@@ -40,4 +48,6 @@ RULES = [
      fitclauses.clause_residual_shape),
     ("C04-R4", "the optimiser minimises that residual on the masked data",
      fitclauses.clause_minimize_inputs),
+    ("C04-R5", "changed bounds/expressions of the initial parameters "
+     "invalidate the results", r5_bounds_trigger_refit),
 ]
